@@ -99,6 +99,8 @@ func init() {
 		{Src: "engines/vmm/machine.go.txt", Dst: "mm/vmm/zz_verif_machine_test.go", Pkg: "vmm"},
 		{Src: "engines/vmm/c04.go.txt", Dst: "mm/vmm/zz_verif_c04_test.go", Pkg: "vmm"},
 		{Src: "engines/vmm/c07.go.txt", Dst: "mm/vmm/zz_verif_c07_test.go", Pkg: "vmm"},
+		{Src: "engines/vmm/c05.go.txt", Dst: "mm/vmm/zz_verif_c05_test.go", Pkg: "vmm"},
+		{Src: "engines/vmm/c06.go.txt", Dst: "mm/vmm/zz_verif_c06_test.go", Pkg: "vmm"},
 	}
 	vmmAnchors := []string{"kernel/mm/vmm/map.go", "kernel/mm/vmm/pdt.go", "kernel/mm/vmm/vmm.go", "kernel/mm/vmm/addr_space.go", "kernel/mm/vmm/fault_amd64.go", "kernel/mm/vmm/vmm_constants_amd64.go", "kernel/mm/page.go", "kernel/multiboot/multiboot.go"}
 	vmmReal := []string{"vmm.Map/Unmap/Translate/MapRegion/IdentityMapRegion/MapTemporary", "PageDirectoryTable.Init/Map/Unmap/Activate", "walk/pteForAddress over the recursive mapping", "vmm.Init, setupPDTForKernel, reserveZeroedFrame, installFaultHandlers", "pageFaultHandler / generalProtectionFaultHandler as registered by the kernel", "EarlyReserveRegion", "multiboot.VisitElfSections decoding a generated ELF-sections tag"}
@@ -120,5 +122,19 @@ func init() {
 		Rule: "one evaluation = one seeded history (up to 60 requests) of EarlyReserveRegion / MapRegion / IdentityMapRegion from five simulated boot-time subsystems, with sizes 0, 1, page+-1, many pages, everything-left, left+1, within a page of 2^64, and a large first reservation that brings the cursor close to exhaustion; the map seam records every (page, frame, flags) call and fails at a seeded call. Every grant is checked against all earlier grants; every refusal must leave the cursor where it was. Non-trivial = at least 3 requests; distinct = hash of (final cursor, request count, refusals).",
 		Assume:   []string{"the map seam is a recorder here; region mapping through the real Map on the simulated MMU is part of C04", "a fitting request that is refused is counted (probe) but not reported: the statement only constrains successful reservations and non-fitting requests"},
 		Required: []string{"c07.reserved", "c07.refused_not_fitting", "c07.mapregion_refused", "c07.region_checked", "c07.map_fail_propagated", "c07.size_near_2^64"},
+	})
+	addProp(&propSpec{
+		ID: "C05", Engine: "vmm", Level: "exploration",
+		Subs: []subCheck{{Name: "C05", QuickRuns: 30000, QuickMs: 30000, ThoroughRuns: 3000000, ThoroughMs: 500000}},
+		Rule: "one evaluation = one simulated boot stage: 0-6 early reservations made through the real EarlyReserveRegion and mapped with the real Map in the boot space, a generated ELF-sections tag (0-12 sections: sizes 1 byte to many pages, aligned or not, ending exactly on a page boundary or not, every W/A/X combination, sections below the kernel offset, empty and non-allocated sections) decoded by the real multiboot.VisitElfSections, then the real vmm.Init with optional allocation / temporary-mapping failure; afterwards ALL present leaves of the activated root are enumerated by an independent walker and must be exactly the section pages (right frame, W, X, never user) plus the reserved pages (same frame as in the boot space). Non-trivial = at least two section pages expected; distinct = hash of (sections, number of reserved pages).",
+		Assume:   []string{"no two sections share a page (as the linker script lays them out)", "every early reservation was mapped before this stage (what the PMM does); reserved-but-unmapped pages are outside the statement", "flags of copied reservation pages are not compared (the statement speaks of their translations)"},
+		Required: []string{"c05.sections_mapped", "c05.reservations_copied", "c05.unaligned_section", "c05.section_below_offset_ignored", "c05.init_failed_by_injection"},
+	})
+	addProp(&propSpec{
+		ID: "C06", Engine: "vmm", Level: "fault_enumeration",
+		Subs: []subCheck{{Name: "C06", QuickRuns: 30000, QuickMs: 40000, ThoroughRuns: 3000000, ThoroughMs: 600000}},
+		Rule: "one evaluation = one simulated boot (real vmm.Init arms the guard) followed by a seeded history of (a) attempts to map the shared zero frame writable through every mapping entry point (Map, MapTemporary, MapRegion, IdentityMapRegion, pdt.Map on the active and on an inactive space) with every other flag mixed in, and (b) page faults raised by the harness-CPU through the handler the kernel registered for vector 14: consistent writes to copy-on-write pages over the zero frame and over ordinary frames with random contents, and arbitrary (address, error code, leaf flags, tampered upper-level entry) combinations, each with frame-allocation or temporary-mapping failure injected at each step of the handler. Return-vs-panic must match the rule; after recovery frame freshness, flags, contents, other mappings, TLB invalidation and the retried access are checked; the zero-frame invariant is checked after every step in every address space. Non-trivial = at least one recovered copy-on-write fault and one panicking fault; distinct = hash of (window pages, counts).",
+		Assume:   []string{"page contents are compared through frames; the faulting page's bytes are loaded into a host window from the mapped frame before the fault is raised (data-path stub)", "a fault whose page cannot be backed by host memory is skipped when it would be recoverable"},
+		Required: []string{"c06.cow_on_zero_frame_recovered", "c06.cow_on_ordinary_frame_recovered", "c06.failure_while_resolving_panics", "c06.other_fault_panics", "c06.upper_level_tamper_panics", "c06.gpf_panics", "c06.guard_refused.Map", "c06.guard_refused.MapTemporary", "c06.guard_refused.MapRegion", "c06.guard_refused.IdentityMapRegion", "c06.guard_refused.pdt.Map(inactive)", "c06.readonly_zero_mapping_ok"},
 	})
 }
